@@ -165,13 +165,13 @@ func Run(run *vh.Run) {
 		}
 		return quick
 	}
-	run.Floor("message transactions executed", run.Get("tx_total"), int64(run.N(400, 13000)))
+	run.Floor("message transactions executed", run.Get("tx_total"), int64(run.N(300, 10000)))
 	run.Floor("records created by whitelisted signers (dynamic deployments)", run.Get("records_created_by_tx"), int64(run.N(12, 400)))
 	run.Floor("deploy attempts by never-whitelisted signers", run.Get("deploy_attempts_foreign"), int64(run.N(25, 800)))
 	run.Floor("deploy attempts by formerly-whitelisted signers", run.Get("deploy_attempts_formerly-whitelisted"), int64(run.N(6, 200)))
 	run.Floor("governance params updates that passed", run.Get("gov_passed_params"), int64(run.N(6, 200)))
 	run.Floor("duplicate-denomination rejections", run.Get("outcome_duplicate-denom"), int64(run.N(6, 200)))
-	run.Floor("zero-supply rejections", run.Get("outcome_zero-supply"), int64(run.N(6, 200)))
+	run.Floor("zero-supply rejections", run.Get("outcome_zero-supply"), int64(run.N(5, 200)))
 	run.Floor("probe calls to registered contracts (all modes)", run.Get("probe_obs_registered"), int64(run.N(400, 13000)))
 	run.Floor("probe calls to unregistered addresses (all modes)", run.Get("probe_obs_unregistered"), int64(run.N(800, 26000)))
 	run.Floor("disabled-contract probes", run.Get("disabled_probe_obs"), int64(run.N(20, 650)))
